@@ -29,7 +29,6 @@ RULE = ('for every shipped layout: the runtime singleton against the generated t
         'index and one below/above the range, circuit_channel_map, qubit/data/ancilla ids. non-trivial: a description that keeps >= 1 gate (layout/device cases always)')
 
 LAYOUTS = ['Repetition9Code', 'Repetition9Round6Code', 'Repetition5Round4Code']
-KNOWN_CLASS = 'composite description with gate exclusions and inherited (not recomputed) parking operations'
 
 
 def tables():
@@ -139,10 +138,15 @@ def gen_cases(rng, tier):
 
 
 def corpus():
-    """Minimised earlier failures, run first: the witness of the composite-exclusion finding (see known_class)."""
+    """Minimised earlier failures, run first: the witness of finding F11 (fixed): a composite description that excludes the
+    gate X3-D8 of Repetition9Code and keeps the underlying parks used to leave X3 unparked in layer 1."""
     dev = ['D9', 'D8', 'X4', 'Z4', 'Z2', 'D6', 'D3', 'D7', 'D2', 'X3', 'Z1', 'X2', 'Z3', 'D5', 'D4', 'D1', 'X1']
+    index = [[q, i] for i, q in enumerate(dev)]
     return [{'k': 'composite', 'name': 'Repetition9Code', 'involved': dev, 'lead_readout': None, 'lead_gate': None,
-             'excl_e': [['X3', 'D8']], 'excl_q': [], 'only': False, 'index': [[q, i] for i, q in enumerate(dev)]}]
+             'excl_e': [['X3', 'D8']], 'excl_q': [], 'only': False, 'index': index},
+            # the same finding, minimised by the shrinker (replay/C17-9108cca3ec59e927.json, recorded on the pre-fix code)
+            {'k': 'composite', 'name': 'Repetition9Code', 'involved': ['D8', 'X3', 'Z1', 'D5'], 'lead_readout': None,
+             'lead_gate': None, 'excl_e': [['X3', 'D8']], 'excl_q': [], 'only': False, 'index': index}]
 
 
 # ------------------------------------------------------------------------- Coq literals
@@ -213,31 +217,33 @@ def sample(c, o):
     return {'input': c, 'impl': o if not isinstance(o, dict) else {k: o[k] for k in list(o)[:2]}}
 
 
-def known_class(c, o):
-    """Composite descriptions that exclude gates but keep the parking operations of the underlying description
-    (_only_required_parking_operations=False): a qubit freed by the exclusion can need parking and is not parked.
-    Only inputs of exactly this shape whose output shows such a missing park are in the class."""
-    if c['k'] != 'composite' or c['only'] or not (c['excl_e'] or c['excl_q']):
-        return None
-    if not isinstance(o, dict) or 'layers' not in o:
-        return None
-    edges, freq = c16.tables()
-    spec = c16.PySpec(edges, freq)
-    for l in o['layers']:
-        gates = [tuple(e) for e in l['gates']]
-        for q in freq:
-            if spec.park(q, gates) and q not in l['parks']:
-                return KNOWN_CLASS
-    return None
+def shrink_candidates(c):
+    """Smaller cases: drop one involved qubit, drop a leading description or an exclusion."""
+    if c['k'] == 'derived':
+        inv = c['involved']
+        if len(inv) > 1:
+            for i in range(len(inv)):
+                yield dict(c, involved=inv[:i] + inv[i + 1:])
+    elif c['k'] == 'composite':
+        for key in ('lead_readout', 'lead_gate'):
+            if c[key] is not None:
+                yield dict(c, **{key: None})
+        for key in ('excl_e', 'excl_q'):
+            for i in range(len(c[key])):
+                yield dict(c, **{key: c[key][:i] + c[key][i + 1:]})
+        inv = c['involved']
+        if len(inv) > 1:
+            for i in range(len(inv)):
+                yield dict(c, involved=inv[:i] + inv[i + 1:])
 
 
-LEVEL_TEXT = ('Machine-checked theorems (Coq) over layout tables regenerated from the Python source on every run: the device tables and every layer of the three shipped '
-              'repetition layouts satisfy the executability conditions (vm_compute; the bound is the shipped tables); for ANY layout and ANY involved-qubit list the derived '
-              'description keeps exactly the gates with both qubits involved, parks exactly the required qubits, never parks a gated qubit, keeps gate qubits distinct and '
-              'device edges, and its default index map is injective (bijective onto 0..n-1 for duplicate-free lists); the same through composite exclusions when parking is '
-              'recomputed; a refutation theorem records that exclusions with inherited parking can leave a required park out. The hand model is tied to the code by the '
-              'correspondence run over sub-chains, random subsets/orderings and composite descriptions.')
-LEVEL_NOTE = ('Trusted: Coq kernel, the ast translator (tables compared with the runtime singletons), the hand model of from_connectivity / composite gate_sequences / index '
-              'observations (sampled correspondence). C17_composite_executable_partial needs _only_required_parking_operations=True for the "required parks present" clause; '
-              'C17_composite_inherited_parking_refuted is the counter-example otherwise. No axioms (Print Assumptions: closed).')
-TECHNIQUE = 'Coq proof (finite tables by vm_compute + generic list lemmas) over translator-generated tables + correspondence evaluated by vm_compute'
+LEVEL_TEXT = ('Coq theorems over layout tables regenerated from the Python source on every run: the Surface-17 device tables are consistent and every layer of the three '
+              'shipped repetition layouts is executable (device edges on distinct qubits, nothing parked and gated, every required park present, every parity edge exercised '
+              'exactly once) by vm_compute over the shipped tables. For ANY layout and ANY involved-qubit list the derived description keeps exactly the gates with both qubits '
+              'involved, parks exactly the required qubits, stays executable and maps its qubits to indices injectively (bijectively onto 0..n-1 for duplicate-free lists); '
+              'composite descriptions with exclusions stay executable in both parking modes.')
+LEVEL_NOTE = ('The theorems are about the hand-written model C17/Model.v (+ C16/Model.v requires_parking); it is tied to the code by the correspondence run (every shipped '
+              'layout, all contiguous data-to-data sub-chains, random subsets/orderings, composite descriptions with random exclusions), whose outputs are judged by spec_ok '
+              'written with the frequency rule of C16/Spec.v only. The pre-fix behaviour of finding F11 is kept as C17_composite_before_F11_refuted. Trusted: Coq kernel, '
+              'the ast translator (tables also compared with the runtime singletons). No axioms.')
+TECHNIQUE = 'Coq proof (finite shipped tables by vm_compute + generic list lemmas for all involved lists) over translator-generated tables, with a sampled model/implementation correspondence judged in Coq'
